@@ -666,7 +666,7 @@ def run(ctx, sf):
                 p[:z] = [0] * z
         oracle_space(ctx, sf, spec, crop=rng.random() < 0.4 and crop_ok(sf, spec))
     # ---- known finding: samples of a space-unrolled run
-    oracle_space_samples(ctx, sf, small[0], 1, xs)
+    oracle_space_samples(ctx, sf, dict(small[0], T=3, params=[[1, 2, 3], [0, 1, 2]]), 1, xs)
 
 
 def search(ctx, sf):
